@@ -10,6 +10,7 @@ import jax.numpy as jnp
 import numpy as np
 
 import liesel.goose as gs
+import liesel.model as lsl
 from vlib.core import fstr
 
 from .graph_driver import Term
@@ -49,7 +50,44 @@ def _leaves(x):
     return [] if x is None or x == 0 else [str(x)]
 
 
-def symbolic_trace(rng, ncalls=10):
+def _mk_iface(via):
+    """The interface class under test: gs.LieselInterface, or its deprecated alias lsl.GooseModel."""
+    if via == "goosemodel":
+        import warnings
+
+        def mk(model):
+            with warnings.catch_warnings():
+                warnings.simplefilter("ignore")
+                return lsl.GooseModel(model)
+        return mk
+    return gs.LieselInterface
+
+
+def failed_construction_trace():
+    """Creating an interface fails (an attribute of a variable cannot be deep-copied): the user's model must be left as
+    it was."""
+    import threading
+    import warnings
+    ev = []
+    for via in ("liesel", "goosemodel"):
+        a = lsl.Var(Term("a0"), name="va")
+        b = lsl.Var(lsl.Calc(lambda x: Term(f"f2({x})"), a), name="vb")
+        b.info["lock"] = threading.Lock()
+        m = lsl.GraphBuilder(to_float32=False).add(b).build_model()
+        before = {k: (str(v.value), bool(v.outdated)) for k, v in m.state.items()}
+        raised = False
+        try:
+            with warnings.catch_warnings():
+                warnings.simplefilter("ignore")
+                _mk_iface(via)(m)
+        except Exception:  # noqa: BLE001
+            raised = True
+        after = {k: (str(v.value), bool(v.outdated)) for k, v in m.state.items()}
+        ev.append({"ev": "failed_construction", "kind": via, "raised": raised, "user_unchanged": before == after})
+    return {"hdr": {"n": 1, "kind": ["v"], "inp": [[]], "init": ["-"], "family": "failed_construction"}, "ev": ev}
+
+
+def symbolic_trace(rng, ncalls=10, via="liesel"):
     plan = gen_program(rng, rng.randint(1, 3))
     unodes = {}
     if rng.random() < 0.2:     # a user-supplied node replaces one of the model's totals
@@ -63,7 +101,8 @@ def symbolic_trace(rng, ncalls=10):
     if rng.random() < 0.35:
         user.update()
         user.auto_update = False
-    iface = gs.LieselInterface(user)
+    LI = _mk_iface(via)
+    iface = LI(user)
     scratch = copy.deepcopy(user)          # only used by the driver to read states
     pool = []
     ev = []
@@ -110,7 +149,7 @@ def symbolic_trace(rng, ncalls=10):
                            "arg_unchanged": _deep_equal_state(before, st),
                            "user_unchanged": _deep_equal_state(user_before, user.state)})
             ret = iface.update_state(pos, st)
-            fresh = gs.LieselInterface(user).update_state(pos, st)
+            fresh = LI(user).update_state(pos, st)
             # direct assignment on a copy of the user's model holding the state
             direct_model = copy.deepcopy(user)
             direct_model.state = st
@@ -158,9 +197,9 @@ def _vec(state, names):
     return out
 
 
-def numeric_trace(rng, family):
+def numeric_trace(rng, family, via="liesel"):
     model, recipe, draws, user = model_family(family)
-    iface = gs.LieselInterface(model)
+    iface = _mk_iface(via)(model)
     # every node of the state (incl. the per-observation log-prob of each distribution node); a changed
     # shape changes the length of the flattened vector
     names = sorted(n for n, nd in model.nodes.items() if model.state[n].value is not None
